@@ -98,27 +98,29 @@ def build(nl, name='top'):
             if not cells:
                 for k in po_idx:
                     b.po[k] = fork
-            if mode == 'C' and real_readers:
-                # fork chain: stem fork -> sub forks -> readers (first sub fork gets ~half of the readers)
-                half = max(1, len(real_readers) // 2)
-                groups = [real_readers[:half], real_readers[half:]]
-                for j, grp in enumerate(groups):
-                    if not grp:
-                        continue
-                    sub = Node(c, f'{src}~{j}')
-                    lines.append(Line(c, fork, sub))
-                    for r in grp:
-                        l = Line(c, sub, reader_pin(r))
+            if mode in ('C', 'L') and real_readers:
+                # fork chains, planned first: sub forks [(key, name, parent key)] and reader attachments [(reader, fork key)]
+                if mode == 'C':     # stem fork -> two sub forks -> readers (first sub fork gets ~half of the readers)
+                    half = max(1, len(real_readers) // 2)
+                    groups = [real_readers[:half], real_readers[half:]]
+                    subs = [(j, f'{src}~{j}', None) for j, grp in enumerate(groups) if grp]
+                    att = [(r, j) for j, grp in enumerate(groups) for r in grp]
+                else:               # stem fork -> fork a -> fork b; the first reader hangs on the deepest fork, the second on the middle one
+                    subs = [('a', f'{src}~a', None), ('b', f'{src}~a~b', 'a')]
+                    att = [(r, ['b', 'a', None][min(j, 2)]) for j, r in enumerate(real_readers)]
+                late = bool(nl.get('frev'))     # downstream forks and their fan-out lines are created before the forks and lines that feed them
+                sub_node = {None: fork}
+                for key, name, _ in (reversed(subs) if late else subs):
+                    sub_node[key] = Node(c, name)
+                def attach():
+                    for r, key in att:
+                        l = Line(c, sub_node[key], reader_pin(r))
                         b.rline[r] = l
                         lines.append(l)
-            elif mode == 'L' and real_readers:
-                # long chain: stem fork -> fork a -> fork b; the first reader hangs on the deepest fork, the second on the middle one
-                fa = Node(c, f'{src}~a'); lines.append(Line(c, fork, fa))
-                fb = Node(c, f'{src}~a~b'); lines.append(Line(c, fa, fb))
-                for j, r in enumerate(real_readers):
-                    l = Line(c, [fb, fa, fork][min(j, 2)], reader_pin(r))
-                    b.rline[r] = l
-                    lines.append(l)
+                if late: attach()
+                for key, _, parent in (reversed(subs) if late else subs):
+                    lines.append(Line(c, sub_node[parent], sub_node[key]))
+                if not late: attach()
             else:
                 for r in real_readers:
                     l = Line(c, fork, reader_pin(r))
